@@ -162,6 +162,7 @@ type divergence struct {
 	vmErr    string
 	specWhy  string
 	stackDif bool
+	control  bool
 }
 
 // locate re-runs the real VM and the specification in lockstep and returns the
@@ -169,8 +170,19 @@ type divergence struct {
 func locate(script []byte) (d divergence) {
 	v := newVM(script)
 	m := vmspec.New(script)
+	prevOp, prevTag := "start", ""
 	for step := 1; step <= 100000; step++ {
+		vmIP := -1
+		if c := v.Context(); c != nil {
+			vmIP = c.NextIP()
+		}
 		m.Step()
+		if vmIP != m.LastIP && m.State != vmspec.Discard {
+			// the previous instruction transferred control to different places
+			return divergence{op: prevOp, step: step - 1, vmClass: "RUN", specCls: "RUN", tag: prevTag, control: true,
+				vmStack: fmt.Sprintf("next ip %d", vmIP), specStk: fmt.Sprintf("next ip %d", m.LastIP)}
+		}
+		prevOp, prevTag = m.LastOp.String(), m.Tag
 		var err error
 		var pan string
 		func() {
